@@ -1,1 +1,32 @@
 //! Verification hooks: `handshake` (thin pass-through wrappers; feature `verif-hooks` only).
+//!
+//! The honest client half of the relay handshake: the crate-private `clientside` function
+//! and the construction of the keying-material auth header, exposed unchanged.
+
+use http::HeaderValue;
+use iroh_base::SecretKey;
+
+use crate::{
+    ExportKeyingMaterial,
+    protos::{
+        handshake::{self, Error, KeyMaterialClientAuth},
+        streams::BytesStreamSink,
+    },
+};
+
+/// [`handshake::clientside`]; `Ok(())` stands for the received `ServerConfirmsAuth`.
+pub async fn clientside(
+    io: &mut (impl BytesStreamSink + ExportKeyingMaterial),
+    secret_key: &SecretKey,
+) -> Result<(), Error> {
+    handshake::clientside(io, secret_key).await.map(|_| ())
+}
+
+/// `KeyMaterialClientAuth::new(..).map(into_header_value)`: the value the real client puts
+/// into the `x-iroh-relay-client-auth-v1` header, if keying material can be exported.
+pub fn key_material_auth_header(
+    secret_key: &SecretKey,
+    io: &impl ExportKeyingMaterial,
+) -> Option<HeaderValue> {
+    KeyMaterialClientAuth::new(secret_key, io).map(|auth| auth.into_header_value())
+}
